@@ -72,7 +72,66 @@ def exe_outputs(tool, src_path, scratch):
                     b = open(os.path.join(d, 'o.bin'), 'rb').read() if os.path.exists(os.path.join(d, 'o.bin')) else b''
                     outs.append((r.returncode, b, r.stderr))
                 res.append(('aslr_off=%d pad=%d perturb=%s' % (aslr_off, pad, perturb), outs))
+    res.append(('other environment, working directory and a non-seekable output file', other_environment(tool, src_path, scratch, len(res[0][1]))))
     return res
+
+
+OTHER_ENV = {'LC_ALL': 'C.UTF-8', 'LANG': 'tr_TR.UTF-8', 'LANGUAGE': 'tr', 'TZ': 'Pacific/Kiritimati', 'HOME': '/nonexistent', 'COLUMNS': '20', 'TERM': 'dumb',
+             'TMPDIR': '/nonexistent', 'POSIXLY_CORRECT': '1', 'MALLOC_ARENA_MAX': '1'}
+
+
+def other_environment(tool, src_path, scratch, nouts):
+    """The same source text under another name in a deep working directory, with locale/time-zone/home variables changed, listings
+    into a pipe as before and the binary into a FIFO (not seekable).  Standard error is not compared here (it may name the file)."""
+    import select
+    import shutil
+    d = os.path.join(scratch, 'deep', 'a' * 40, 'b b', 'c' * 60)
+    os.makedirs(d, exist_ok=True)
+    ext = os.path.splitext(src_path)[1]
+    local = 'renamed-source-file-with-a-much-longer-name' + ext
+    shutil.copy(src_path, os.path.join(d, local))
+    env = dict(os.environ)
+    env.update(OTHER_ENV)
+    exe = toolchain.tool('xcmp' if tool == 'x' else 'hexasm')
+    outs = []
+    listings = (['-S'], ['--tree'], ['--memory-info', '-S']) if tool == 'x' else (['--instrs'],)
+    for extra in listings:
+        r = subprocess.run([exe, local] + extra, stdout=subprocess.PIPE, stderr=subprocess.PIPE, env=env, cwd=d, timeout=60)
+        outs.append((r.returncode, r.stdout, None))
+    fifo = os.path.join(d, 'out.fifo')
+    os.mkfifo(fifo)
+    fd = os.open(fifo, os.O_RDONLY | os.O_NONBLOCK)
+    buf = b''
+    try:
+        with open(os.path.join(d, 'stderr.txt'), 'wb') as ef:
+            pr = subprocess.Popen([exe, local, '-o', 'out.fifo'], stdout=subprocess.DEVNULL, stderr=ef, env=env, cwd=d)
+            import time
+            t0 = time.time()
+            while True:
+                done = pr.poll() is not None
+                got = False
+                while True:
+                    try:
+                        chunk = os.read(fd, 1 << 16)
+                    except BlockingIOError:
+                        chunk = b''
+                    if not chunk:
+                        break
+                    buf += chunk
+                    got = True
+                if done:
+                    break
+                if time.time() - t0 > 60 * driver.TIMEOUT_SCALE:
+                    pr.kill()
+                    pr.wait()
+                    break
+                if not got:
+                    select.select([fd], [], [], 0.01)
+                    time.sleep(0.002)
+    finally:
+        os.close(fd)
+    outs.append((pr.returncode, buf, None))
+    return outs
 
 
 def check(tool, text, scratch, with_exe):
@@ -91,6 +150,8 @@ def check(tool, text, scratch, with_exe):
         names = ['-S listing', '--tree', '--memory-info report', 'binary'] if tool == 'x' else ['--instrs listing', 'binary']
         for cfg, outs in res[1:]:
             for nme, a, b in zip(names, outs, res[0][1]):
+                if a[2] is None:
+                    b = (b[0], b[1], None)
                 if a != b:
                     return 'fail', 'executable: %s under [%s] differs from [%s]' % (nme, cfg, res[0][0]), o
     return 'ok', '', o
